@@ -193,9 +193,9 @@ theorem writeAt_end (file x : Bytes) : writeAt file file.length x = file ++ x :=
 
 /-- a write on a fully mapped archive appends `header ‖ image` at the end of the file, returns
 `(0, old length, 30 + |image|, H image)` and leaves the archive fully mapped again. -/
-theorem write_spec (P : Params) (hr : RemapsOnChange P) (hh : HdrLen P) (s : State) (hs : ArchOk s) (d : Bytes)
+theorem write_spec32 (P : Params) (hr : RemapsOnChange P) (hh : HdrLen P) (s : State) (hs : ArchOk s) (d : Bytes)
     (m : Mode) (b : Bytes) (hb : blteOf P.cd d m = .ok b)
-    (hsz : (fileOf s).length + headerSize + b.length < 2 ^ 30) :
+    (hsz : (fileOf s).length + headerSize + b.length < 2 ^ 32) :
     ∃ s', write P s d m =
         (s', .ok (0, (fileOf s).length, headerSize + b.length, P.H b)) ∧
       s'.disk = some (fileOf s ++ (P.hdr (P.H b) b.length (fileOf s).length ++ b)) ∧ ArchOk s' := by
@@ -213,7 +213,7 @@ theorem write_spec (P : Params) (hr : RemapsOnChange P) (hh : HdrLen P) (s : Sta
       subst hs
       simp only [fileOf, Option.getD_none, List.length_nil] at hsz ⊢
       unfold write
-      simp only [hb]
+      simp only [hb, createArchive, Option.getD_none, ite_self, List.length_nil]
       rw [if_neg (by omega), if_neg (by omega), if_neg (by omega), if_neg (by omega)]
       have hw : writeAt [] 0 (P.hdr (P.H b) b.length 0 ++ b) = P.hdr (P.H b) b.length 0 ++ b :=
         writeAt_end [] _
@@ -242,5 +242,151 @@ theorem write_spec (P : Params) (hr : RemapsOnChange P) (hh : HdrLen P) (s : Sta
       refine ⟨_, rfl, rfl, ?_⟩
       have hl := hh (P.H b) b.length file.length
       simp only [ArchOk, Option.map_some, List.length_append, hl]
+
+/-- the same below 1 GiB (the bound the history theorems carry because of the `.idx` offset). -/
+theorem write_spec (P : Params) (hr : RemapsOnChange P) (hh : HdrLen P) (s : State) (hs : ArchOk s) (d : Bytes)
+    (m : Mode) (b : Bytes) (hb : blteOf P.cd d m = .ok b)
+    (hsz : (fileOf s).length + headerSize + b.length < 2 ^ 30) :
+    ∃ s', write P s d m =
+        (s', .ok (0, (fileOf s).length, headerSize + b.length, P.H b)) ∧
+      s'.disk = some (fileOf s ++ (P.hdr (P.H b) b.length (fileOf s).length ++ b)) ∧ ArchOk s' :=
+  write_spec32 P hr hh s hs d m b hb (by
+    have : (2 : Nat) ^ 30 < 2 ^ 32 := by decide
+    omega)
+
+/-! ### a manager that has not opened its archive (`create_archive` on an existing file) -/
+
+/-- nothing is open (a manager built without `open_all`), or the archive is open on the whole
+file: the archive states an `Installation` can be in. -/
+def ArchOk' (s : State) : Prop := s.opn = none ∨ ArchOk s
+
+theorem archOk'_of_ok {s : State} (h : ArchOk s) : ArchOk' s := Or.inr h
+theorem dropOpen_ok' (s : State) : ArchOk' (dropOpen s) := Or.inl rfl
+theorem reopen_ok (s : State) : ArchOk (reopen s) := rfl
+theorem fileOf_dropOpen (s : State) : fileOf (dropOpen s) = fileOf s := rfl
+theorem fileOf_reopen (s : State) : fileOf (reopen s) = fileOf s := rfl
+
+/-- with `create_archive` as it is now (`keepOnCreate`), a write through a manager that has NOT
+opened the archive still appends at the end of the existing file — nothing stored is touched —
+and returns the old length as offset; afterwards the archive is open on the whole file.  Holds up
+to 4 GiB (the `u32` offset), not only below 1 GiB. -/
+theorem write_append (P : Params) (hk : P.keepOnCreate = true) (hr : RemapsOnChange P) (hh : HdrLen P)
+    (s : State) (hs : ArchOk' s) (d : Bytes) (m : Mode) (b : Bytes) (hb : blteOf P.cd d m = .ok b)
+    (hsz : (fileOf s).length + headerSize + b.length < 2 ^ 32) :
+    ∃ s', write P s d m =
+        (s', .ok (0, (fileOf s).length, headerSize + b.length, P.H b)) ∧
+      s'.disk = some (fileOf s ++ (P.hdr (P.H b) b.length (fileOf s).length ++ b)) ∧ ArchOk s' := by
+  rcases hs with hnone | hok
+  · have h32 : (2 : Nat) ^ 32 = 4294967296 := by decide
+    have hmax : maxArchive - writeReserve = 274773049344 := by decide
+    have hmax2 : maxArchive = 274877906944 := by decide
+    have hhs : headerSize = 30 := rfl
+    cases s with
+    | mk disk opn =>
+      simp only at hnone
+      subst hnone
+      simp only [fileOf] at hsz ⊢
+      unfold write
+      simp only [hb, createArchive, hk, if_true]
+      rw [if_neg (by omega), if_neg (by omega), if_neg (by omega), if_neg (by omega)]
+      simp only [writeAt_end]
+      have hne : (disk.getD [] ++ (P.hdr (P.H b) b.length (disk.getD []).length ++ b)).length ≠
+          (disk.getD []).length := by
+        have := (blteOf_len P.cd d m b hb)
+        simp only [List.length_append]; omega
+      rw [if_pos (hr _ _ hne), if_neg (by omega)]
+      refine ⟨_, rfl, rfl, ?_⟩
+      have hl := hh (P.H b) b.length (disk.getD []).length
+      simp only [ArchOk, Option.map_some, List.length_append, hl]
+  · exact write_spec32 P hr hh s hok d m b hb hsz
+
+/-- the pinned `create_archive` (`File::create`) is different: the same write through a manager
+that has not opened the archive leaves a file that holds ONLY the new entry, at offset 0. -/
+theorem write_truncates_pinned (P : Params) (hk : P.keepOnCreate = false)
+    (file : Bytes) (d : Bytes) (m : Mode) (b : Bytes) (hb : blteOf P.cd d m = .ok b)
+    (hsz : headerSize + b.length < 2 ^ 32) :
+    ∃ s', write P ⟨some file, none⟩ d m = (s', .ok (0, 0, headerSize + b.length, P.H b)) ∧
+      s'.disk = some (P.hdr (P.H b) b.length 0 ++ b) := by
+  have h32 : (2 : Nat) ^ 32 = 4294967296 := by decide
+  have hmax : maxArchive - writeReserve = 274773049344 := by decide
+  have hmax2 : maxArchive = 274877906944 := by decide
+  have hhs : headerSize = 30 := rfl
+  unfold write
+  simp only [hb, createArchive, hk, Bool.false_eq_true, if_false, List.length_nil]
+  rw [if_neg (by omega), if_neg (by omega), if_neg (by omega), if_neg (by omega)]
+  have hw : writeAt [] 0 (P.hdr (P.H b) b.length 0 ++ b) = P.hdr (P.H b) b.length 0 ++ b :=
+    writeAt_end [] _
+  simp only [hw]
+  rw [if_neg (by omega)]
+  exact ⟨_, rfl, rfl⟩
+
+/-! ### the size and offset limits of `write_content_with_mode` -/
+
+/-- on an open archive the result of `write` is the arithmetic `placeAt` (error class, or the
+write position as offset and `30 + |image|` as size), whatever the file holds: no other size or
+offset limit is checked — in particular none at 2^30. -/
+theorem write_result_eq_placeAt (P : Params) (s : State) (o : Open) (file : Bytes)
+    (ho : s.opn = some o) (hf : s.disk = some file) (d : Bytes) (m : Mode) (b : Bytes)
+    (hb : blteOf P.cd d m = .ok b) :
+    (write P s d m).2 = (placeAt o.pos b.length).map fun r => (0, r.1, r.2, P.H b) := by
+  cases s with
+  | mk disk opn =>
+    simp only at ho hf
+    subst ho hf
+    unfold write placeAt
+    simp only [hb]
+    split
+    · rfl
+    · split
+      · rfl
+      · split
+        · rfl
+        · split
+          · rfl
+          · split <;> rfl
+
+/-- … and the entry is written and the position advanced exactly when `placeAtWrites` says so
+(also when the late `u32::try_from(offset)` then fails). -/
+theorem write_advances_iff (P : Params) (s : State) (o : Open) (file : Bytes)
+    (ho : s.opn = some o) (hf : s.disk = some file) (d : Bytes) (m : Mode) (b : Bytes)
+    (hb : blteOf P.cd d m = .ok b) :
+    (write P s d m).1.opn.map (·.pos) =
+      some (if placeAtWrites o.pos b.length then o.pos + (headerSize + b.length) else o.pos) := by
+  cases s with
+  | mk disk opn =>
+    simp only at ho hf
+    subst ho hf
+    unfold write placeAtWrites
+    simp only [hb]
+    split
+    · rename_i h; simp only [Option.map_some]; rw [if_neg]; simp only [decide_eq_true_eq]; omega
+    · split
+      · rename_i h; simp only [Option.map_some]; rw [if_neg]; simp only [decide_eq_true_eq]; omega
+      · split
+        · rename_i h; simp only [Option.map_some]; rw [if_neg]; simp only [decide_eq_true_eq]; omega
+        · split
+          · rename_i h; simp only [Option.map_some]; rw [if_neg]; simp only [decide_eq_true_eq]; omega
+          · rename_i h1 h2 h3 h4
+            have : decide (b.length < 2 ^ 32 ∧ headerSize + b.length < 2 ^ 32 ∧
+                o.pos < maxArchive - writeReserve ∧ o.pos + (headerSize + b.length) ≤ maxArchive) = true := by
+              simp only [decide_eq_true_eq]; omega
+            rw [if_pos this]
+            split <;> rfl
+
+/-- there is no limit at 1 GiB: for every write position from 2^30 up to (but excluding) 2^32 and
+every image that fits below 256 GiB − 100 MiB, `placeAt` accepts and returns the position itself —
+an offset that does not fit the 30-bit field of an `.idx` record. -/
+theorem placeAt_no_limit_at_1GiB (pos blteLen : Nat) (h1 : 2 ^ 30 ≤ pos) (h2 : pos < 2 ^ 32)
+    (h3 : blteLen < 2 ^ 31) :
+    placeAt pos blteLen = .ok (pos, headerSize + blteLen) ∧ ¬ pos < 2 ^ 30 := by
+  have h30 : (2 : Nat) ^ 30 = 1073741824 := by decide
+  have h31 : (2 : Nat) ^ 31 = 2147483648 := by decide
+  have h32 : (2 : Nat) ^ 32 = 4294967296 := by decide
+  have hmax : maxArchive - writeReserve = 274773049344 := by decide
+  have hmax2 : maxArchive = 274877906944 := by decide
+  have hhs : headerSize = 30 := rfl
+  refine ⟨?_, by omega⟩
+  unfold placeAt
+  rw [if_neg (by omega), if_neg (by omega), if_neg (by omega), if_neg (by omega), if_neg (by omega)]
 
 end Cascette.Proofs.Archive
